@@ -613,6 +613,31 @@ def run_features(seed_name, acc, full=False):
                 viols.append(("table:process_raw_raises:%s" % type(e).__name__, {"seed": seed_name, "msgs": [m1, m2]}))
                 continue
             states.add(hash(canon(d2.acs)))
+    # replies from transponders that are NOT in the table but whose address is *related* to a listed one (one bit away,
+    # the register number XOR-ed onto a byte, +-1, byte-swapped): each must leave the table exactly as it was
+    if seeds[seed_name]:
+        base = canon(d0.acs)
+        near = [ICAO1 ^ (1 << b) for b in range(24)] + [ICAO1 ^ (r << sh) for r in (0x10, 0x17, 0x20, 0x30, 0x40, 0x44, 0x45, 0x50, 0x60)
+                                                        for sh in (0, 8, 16)] + [(ICAO1 + 1) & 0xFFFFFF, (ICAO1 - 1) & 0xFFFFFF,
+                                                                                 ((ICAO1 & 0xFF) << 16) | (ICAO1 & 0xFF00) | (ICAO1 >> 16)]
+        dd = copy.deepcopy(d0)
+        for m1 in second:
+            v = int(m1, 16)
+            data = v >> 24
+            for addr in near:
+                m = F.hexn((data << 24) | ((v & 0xFFFFFF) ^ ICAO1 ^ addr), 112)       # same data, AP re-overlaid with the other address
+                n += 1
+                try:
+                    dd.process_raw([], [], [t + 1.5], [m], tnow=t + 1.5)
+                except Exception as e:  # noqa: BLE001
+                    viols.append(("table:process_raw_raises:%s" % type(e).__name__, {"seed": seed_name, "msgs": [m]}))
+                    dd = copy.deepcopy(d0)
+                    continue
+                d_ = copy.deepcopy(d0)
+                d_.process_raw([], [], [], [], tnow=t + 1.5)
+                if canon(dd.acs) != canon(d_.acs):
+                    viols.append(("table:reply_from_an_unlisted_transponder_changed_the_table", {"seed": seed_name, "msgs": [m]}))
+                    dd = copy.deepcopy(d0)
     acc.c["commb_alphabet"] = len(alpha)
     acc.c["infer_answers_in_alphabet"] = len(answers)
     return viols, len(states), n
@@ -631,7 +656,13 @@ def replay_features(seed_name, msgs):
             if int(m[:2], 16) >> 3 in (17, 18):
                 d.process_raw([tt], [m], [], [], tnow=tt)
             else:
+                unlisted = str(pms.icao(m)).upper() not in {str(k_).upper() for k_ in d.acs}
+                ref = copy.deepcopy(d)
                 d.process_raw([], [], [tt], [m], tnow=tt)
+                if unlisted:
+                    ref.process_raw([], [], [], [], tnow=tt)
+                    if canon(d.acs) != canon(ref.acs):
+                        return "table:reply_from_an_unlisted_transponder_changed_the_table"
         except Exception as e:  # noqa: BLE001
             return "table:process_raw_raises:%s" % type(e).__name__
     return None
